@@ -12,8 +12,8 @@ Trees == << << E("a.xml", "xml", 0), E("b.xml", "xml", 0) >>,
             << E("j.json", "json", 0), E("h.html", "html", 0), E("d", "dir", 0), E("k.xml", "xml", 3) >>,
             << E("data.txt", "txtjson", 0) >> >>
 Bools == {TRUE, FALSE}
-Flags == {[a |-> a, m |-> m, n |-> n, r |-> r, t |-> t, e |-> e, q |-> q] :
-            a \in Bools, m \in Bools, n \in Bools, r \in Bools, t \in {"", "xml", "json"}, e \in Bools, q \in {"ns", "empty", "num"}}
+Flags == {[a |-> a, m |-> m, n |-> n, r |-> r, t |-> t, e |-> e, u |-> u, q |-> q] :
+            a \in Bools, m \in Bools, n \in Bools, r \in Bools, t \in {"", "xml", "json"}, e \in Bools, u \in Bools, q \in {"ns", "empty", "num"}}
 Init == ti \in 1..Len(Trees) /\ fl = [none |-> TRUE]
 Next == "none" \in DOMAIN fl /\ fl' \in {f \in Flags : ~(f.a /\ f.m)} /\ ti' = ti
 Ready == "none" \notin DOMAIN fl
